@@ -103,18 +103,41 @@ class Env:
             import time_machine
 
             reads = self.clock if isinstance(self.clock, list) else [self.clock]
-            self.tm = time_machine.travel(_dt.datetime.fromtimestamp(reads[0], _dt.timezone.utc), tick=False)
+            self.tm = time_machine.travel(float(reads[0]), tick=False)
             self.traveller = self.tm.start()
             self.reads = reads
+            self.k = 0
+            # successive clock reads return the scripted instants: wrap the module-level readers
+            self.saved = {}
+            env = self
+
+            def wrap(name, is_read):
+                orig = getattr(time, name)
+                self.saved[name] = orig
+
+                def w(*a, **kw):
+                    if is_read(a, kw):
+                        env.next_read()
+                    return orig(*a, **kw)
+
+                setattr(time, name, w)
+
+            if len(reads) > 1:
+                wrap("time", lambda a, kw: True)
+                wrap("strftime", lambda a, kw: len(a) < 2)
+                wrap("localtime", lambda a, kw: len(a) == 0 or a[0] is None)
+                wrap("gmtime", lambda a, kw: len(a) == 0 or a[0] is None)
         return self
 
-    def advance(self, k):
-        """move the clock to the k-th scripted read (if any)"""
-        if self.tm is not None and k < len(self.reads):
-            self.traveller.move_to(_dt.datetime.fromtimestamp(self.reads[k], _dt.timezone.utc))
+    def next_read(self):
+        if self.k < len(self.reads):
+            self.traveller.move_to(float(self.reads[self.k]))
+        self.k += 1
 
     def __exit__(self, *a):
         if self.tm is not None:
+            for name, orig in getattr(self, "saved", {}).items():
+                setattr(time, name, orig)
             self.tm.stop()
         if self.zone:
             if self.old_tz is None:
